@@ -387,28 +387,41 @@ def stepRemove {V : Type} (m : Metric V) (vs : List PyVal) : Metric V × Out :=
   else ({ m with children := terase (vs.map pyStr) m.children }, .ok)
 
 /-- `m.clear()`: `with self._lock: self._metrics = {}`.  `_lock` exists on a labelled parent and — from their
-`_metric_init` — on an unlabelled Info or Enum (where the new `_metrics` attribute is never read) -/
+`_metric_init` — on an unlabelled Info or Enum (whose new `_metrics` attribute is never read); elsewhere the attribute
+access raises AttributeError -/
+def hasLock {V : Type} (d : Decl V) : Bool :=
+  !d.labelnames.isEmpty || (match d.kind with
+    | .info => true
+    | .enum _ => true
+    | _ => false)
+
 def stepClear {V : Type} (m : Metric V) : Metric V × Out :=
-  if !m.decl.labelnames.isEmpty then ({ m with children := [] }, .ok)
-  else match m.decl.kind with
-    | .info => (m, .ok)
-    | .enum _ => (m, .ok)
-    | _ => (m, .raised .attributeError)
+  if hasLock m.decl then ({ m with children := [] }, .ok)
+  else (m, .raised .attributeError)
 
 inductive Op (V : Type)
   | call (m : Nat) (addr : Addr) (act : Action V)
   | remove (m : Nat) (vs : List PyVal)
   | clear (m : Nat)
 
+def Op.metric {V : Type} : Op V → Nat
+  | .call i _ _ => i
+  | .remove i _ => i
+  | .clear i => i
+
+/-- one call on the metric object it names -/
+def stepM {V : Type} [Val V] (m : Metric V) : Op V → Metric V × Out
+  | .call _ addr act => stepCall m addr act
+  | .remove _ vs => stepRemove m vs
+  | .clear _ => stepClear m
+
 def modifyAt {V : Type} (r : Reg V) (i : Nat) (f : Metric V → Metric V × Out) : Reg V × Out :=
   match r[i]? with
   | none => (r, .raised .keyError)
   | some m => let x := f m; (r.set i x.1, x.2)
 
-def step {V : Type} [Val V] (r : Reg V) : Op V → Reg V × Out
-  | .call i addr act => modifyAt r i (fun m => stepCall m addr act)
-  | .remove i vs => modifyAt r i (fun m => stepRemove m vs)
-  | .clear i => modifyAt r i stepClear
+def step {V : Type} [Val V] (r : Reg V) (op : Op V) : Reg V × Out :=
+  modifyAt r op.metric (fun m => stepM m op)
 
 def run {V : Type} [Val V] (r : Reg V) : List (Op V) → Reg V × List Out
   | [] => (r, [])
@@ -450,6 +463,11 @@ def cumulate {V : Type} [Val V] (acc : V) : List V → List V
 
 def leLabel (r : Str) : List (Str × Str) := [(['l', 'e'], Utils.floatToGoString r)]
 
+/-- `Enum._child_samples`: `for i, s in enumerate(self._states)`: 1 if `i == self._value` else 0 -/
+def enumSamples {V : Type} [Val V] (name : Str) (cur : Nat) : Nat → List Str → List (Sample V)
+  | _, [] => []
+  | i, s :: ss => ⟨[], [(name, s)], if i = cur then Val.one else Val.zero⟩ :: enumSamples name cur (i + 1) ss
+
 /-- `_child_samples` as (suffix, labels, value), without the `_created` samples -/
 def childSamples {V : Type} [Val V] (d : Decl V) (c : Child V) : List (Sample V) :=
   match d.kind with
@@ -462,9 +480,7 @@ def childSamples {V : Type} [Val V] (d : Decl V) (c : Child V) : List (Sample V)
       ++ [⟨"_count".toList, [], (accs.getLast?).getD Val.zero⟩]
       ++ (if sumExposed (bs.map (·.1)) then [⟨"_sum".toList, [], c.sum⟩] else [])
   | .info => [⟨"_info".toList, c.info, Val.one⟩]
-  | .enum states =>
-    (List.range states.length).zip states |>.map
-      (fun is => ⟨[], [(d.name, is.2)], if is.1 = c.state then Val.one else Val.zero⟩)
+  | .enum states => enumSamples d.name c.state 0 states
 
 /-- `_samples` with `_multi_samples`, then `collect`'s `self._name + suffix` -/
 def metricSamples {V : Type} [Val V] (m : Metric V) : List (Sample V) :=
